@@ -56,7 +56,7 @@ for _n in ('UserMethod', 'UserMiddleware', 'UserErrorHandler', 'UserTransport', 
            'UserExcludeFn', 'UserIdGen', 'UserLoader', 'UserDumper', 'UserValidator', 'UserStatusFn', 'UserMock', 'UserMockCallback'):
     _mk(_n, 'UserCallable')
 for _n in ('UserTracer', 'UserContext', 'UserView', 'UserIdIter', 'ExtHttpRequest', 'ExtHttpResponse', 'ExtWsgiEnviron',
-           'UserSchemaExtractor', 'UserMockModule'):
+           'UserSchemaExtractor', 'UserMockModule', 'UserPatcher', 'UserClientObject'):
     _mk(_n, 'UserObject')
 
 
